@@ -20,3 +20,36 @@ def source_equations(ctx, want):
     if ok:
         ctx.trusted.append("Gen_sbx_src (source term = model function: " + ", ".join(thms) + "): " + " ".join(sorted(set(out.split("\n")))).strip())
     return ok
+
+
+def source_equations_paths(ctx):
+    """C17: getattr / getitem equations + part 2 (unsafe_undefined, get_field, attrgetter, do_attr,
+    _prepare_attribute_parts, Getattr.as_const, Getitem.as_const) in one generated file"""
+    from gen import sbx_translate, sbx_translate2
+    n = len(sbx_translate2.THEOREMS2) + 4
+    try:
+        text, thms = sbx_translate2.emit(lib.SRC)
+    except (sbx_translate.Untranslatable, SyntaxError, OSError) as e:
+        ctx.obligations += n
+        ctx.obligation_names.append(f"Gen_sbx_src (source = model, {n})")
+        ctx.broken.append(f"translator gen/sbx_translate2.py: the source left the translatable vocabulary: {e}")
+        return False
+    ok, out = ctx.coq_obligation("Gen_sbx_src", text, n_obligations=len(thms))
+    ctx.extra["source_equations"] = thms
+    if ok:
+        ctx.trusted.append("Gen_sbx_src (source term = model function: " + ", ".join(thms) + "): " + " ".join(sorted(set(out.split("\n")))).strip())
+    return ok
+
+
+def routing_table(ctx):
+    """C17 / C18: regenerated decision table of compiler.visit_Getattr / visit_Getitem / visit_Call"""
+    from gen import sbx_route
+    try:
+        text = sbx_route.emit(lib.SRC)
+    except (sbx_route.Untranslatable, SyntaxError, OSError) as e:
+        ctx.obligations += 3
+        ctx.obligation_names.append("Gen_sbx_route (regenerated, 3)")
+        ctx.broken.append(f"translator gen/sbx_route.py: compiler.py visitors left the recognised emission vocabulary: {e}")
+        return False
+    ok, _ = ctx.coq_obligation("Gen_sbx_route", text, n_obligations=3)
+    return ok
